@@ -319,6 +319,11 @@ class PairWalker(Walker):
     def guard(self, test, state):
         return const_guard(test, self.env)
 
+    def nonempty(self, iter_node, state):
+        # the stage tree including its root is never empty: `for s in <stage>.iter_stages(include_self=True)`
+        return isinstance(iter_node, ast.Call) and isinstance(iter_node.func, ast.Attribute) and iter_node.func.attr == "iter_stages" \
+            and any(k.arg == "include_self" and isinstance(k.value, ast.Constant) and k.value.value is True for k in iter_node.keywords)
+
     def transfer(self, node, state):
         if isinstance(node, (ast.FunctionDef, ast.AsyncFunctionDef, ast.ClassDef)):
             return state
